@@ -4,6 +4,9 @@ import (
 	"errors"
 	"fmt"
 	"reflect"
+	"runtime"
+	"strings"
+	"sync"
 	"sync/atomic"
 	"time"
 
@@ -320,8 +323,30 @@ func reentrantBattery() {
 // itself, every OTHER field is resolvable under exactly its own identity - a resolution that succeeds returns the value
 // the constructor put into THAT field.
 
-type outDB struct{ tag string }
-type outCache struct{ tag string }
+type outDB struct {
+	tag    string
+	closes int64
+}
+type outCache struct {
+	tag    string
+	closes int64
+}
+
+var outMade sync.Map // every *outDB / *outCache the constructors of this battery made
+
+func (d *outDB) Close() error    { atomic.AddInt64(&d.closes, 1); return nil }
+func (d *outCache) Close() error { atomic.AddInt64(&d.closes, 1); return nil }
+func mkOutDB(tag string) *outDB {
+	d := &outDB{tag: tag}
+	outMade.Store(d, true)
+	return d
+}
+func mkOutCache(tag string) *outCache {
+	d := &outCache{tag: tag}
+	outMade.Store(d, true)
+	return d
+}
+
 type outNilNamed struct {
 	godi.Out
 	Primary   *outDB `name:"primary"`
@@ -336,10 +361,10 @@ type outNilTyped struct {
 }
 
 func newOutNilNamed() outNilNamed {
-	return outNilNamed{Primary: nil, Replica: &outDB{"replica"}, Analytics: &outDB{"analytics"}}
+	return outNilNamed{Primary: nil, Replica: mkOutDB("replica"), Analytics: mkOutDB("analytics")}
 }
 func newOutNilTyped() outNilTyped {
-	return outNilTyped{DB: nil, Cache: &outCache{"cache"}, Extra: &outDB{"extra"}}
+	return outNilTyped{DB: nil, Cache: mkOutCache("cache"), Extra: mkOutDB("extra")}
 }
 
 func outNilFieldBattery() {
@@ -368,41 +393,189 @@ func outNilFieldBattery() {
 			if err != nil {
 				return nil // the registration itself may be refused
 			}
+			outMade = sync.Map{}
 			p, err := c.Build()
 			if err != nil {
 				return nil // a nil singleton output may make Build fail: no claim
 			}
-			defer p.Close()
 			s, err := p.CreateScope(nil)
 			if err != nil {
+				p.Close()
 				return err
 			}
-			defer s.Close()
-			for _, order := range [][]string{{"replica", "analytics", "primary"}, {"analytics", "replica"}} {
-				for _, k := range order {
-					v, err := godi.ResolveKeyed[*outDB](s, k)
-					if err == nil && v != nil && v.tag != k {
-						return fmt.Errorf("field %q resolved to the value of field %q", k, v.tag)
-					}
-					if err == nil && v == nil && k != "primary" {
-						return fmt.Errorf("field %q resolved to nil without an error", k)
-					}
+			perr := outNilProbe(s)
+			// however often the constructors had to run: everything they made is closed exactly once when the scope and
+			// the provider have been closed
+			s.Close()
+			p.Close()
+			if perr != nil {
+				return perr
+			}
+			var bad error
+			outMade.Range(func(k, _ any) bool {
+				var n int64
+				switch x := k.(type) {
+				case *outDB:
+					n = atomic.LoadInt64(&x.closes)
+				case *outCache:
+					n = atomic.LoadInt64(&x.closes)
 				}
-			}
-			if v, err := godi.Resolve[*outCache](s); err == nil && (v == nil || v.tag != "cache") {
-				return fmt.Errorf("the cache field resolved to something else")
-			}
-			if v, err := godi.Resolve[*outDB](s); err == nil && v != nil {
-				return fmt.Errorf("the nil field resolved to the value of field %q", v.tag)
-			}
-			if vs, err := godi.ResolveGroup[*outDB](s, "extra"); err == nil {
-				for _, v := range vs {
-					if v != nil && v.tag != "extra" {
-						return fmt.Errorf("group extra holds the value of field %q", v.tag)
-					}
+				if n != 1 {
+					bad = fmt.Errorf("an instance made by the result-object constructor was closed %d times", n)
 				}
-			}
-			return nil
+				return true
+			})
+			return bad
 		})
+	}
+}
+
+func outNilProbe(s godi.Scope) error {
+	for _, order := range [][]string{{"replica", "analytics", "primary"}, {"analytics", "replica"}} {
+		for _, k := range order {
+			v, err := godi.ResolveKeyed[*outDB](s, k)
+			if err == nil && v != nil && v.tag != k {
+				return fmt.Errorf("field %q resolved to the value of field %q", k, v.tag)
+			}
+			if err == nil && v == nil && k != "primary" {
+				return fmt.Errorf("field %q resolved to nil without an error", k)
+			}
+		}
+	}
+	if v, err := godi.Resolve[*outCache](s); err == nil && (v == nil || v.tag != "cache") {
+		return fmt.Errorf("the cache field resolved to something else")
+	}
+	if v, err := godi.Resolve[*outDB](s); err == nil && v != nil {
+		return fmt.Errorf("the nil field resolved to the value of field %q", v.tag)
+	}
+	if vs, err := godi.ResolveGroup[*outDB](s, "extra"); err == nil {
+		for _, v := range vs {
+			if v != nil && v.tag != "extra" {
+				return fmt.Errorf("group extra holds the value of field %q", v.tag)
+			}
+		}
+	}
+	return nil
+}
+
+// ---- abnormal exits of user code -------------------------------------------------------------------------------
+
+type abortSvc struct{ n int }
+
+var abortCalls int64
+
+// a scoped constructor whose goroutine ends inside it at the first invocation (runtime.Goexit, as t.FailNow or a
+// request-abort helper does)
+func newAbortSvc() *abortSvc {
+	if atomic.AddInt64(&abortCalls, 1) == 1 {
+		runtime.Goexit()
+	}
+	return &abortSvc{n: int(atomic.LoadInt64(&abortCalls))}
+}
+
+type flushSvc struct{ wrap error }
+
+// an instance whose Close fails with an error that WRAPS one of the container's own sentinels (a flusher that used its
+// already-disposed scope and reports why it could not flush)
+func (f *flushSvc) Close() error { return fmt.Errorf("flush failed: %w", f.wrap) }
+
+var flushWrap atomic.Value
+
+func newFlushSvc() *flushSvc {
+	w, _ := flushWrap.Load().(error)
+	return &flushSvc{wrap: w}
+}
+
+func abnormalBattery() {
+	// the goroutine that claimed a scoped construction ends inside the constructor: later resolutions of that service
+	// in that scope return (a construction of their own, or an error) - nobody waits for ever
+	abuseCall("ctor_goexit_releases_waiters", func() error {
+		atomic.StoreInt64(&abortCalls, 0)
+		c := godi.NewCollection()
+		if err := c.AddScoped(newAbortSvc); err != nil {
+			return err
+		}
+		p, err := c.Build()
+		if err != nil {
+			return err
+		}
+		defer watchdog("provider.Close", p.Close)
+		s, err := p.CreateScope(nil)
+		if err != nil {
+			return err
+		}
+		gone := make(chan struct{})
+		go func() {
+			defer close(gone)
+			s.Get(typeOf[*abortSvc]())
+		}()
+		select {
+		case <-gone:
+		case <-time.After(5 * time.Second):
+			return fmt.Errorf("the aborted goroutine did not end")
+		}
+		var got any
+		if err := watchdog("Get after an aborted construction", func() error {
+			v, err := s.Get(typeOf[*abortSvc]())
+			got = v
+			return err
+		}); err != nil {
+			if got == nil && !strings.Contains(err.Error(), "did not return") {
+				return nil // reporting the aborted construction as a failure is acceptable; blocking is not
+			}
+			return err
+		}
+		v2, err := s.Get(typeOf[*abortSvc]())
+		if err != nil || v2 != got {
+			return fmt.Errorf("the scope has two instances after the retry (%v)", err)
+		}
+		return watchdog("Close", s.Close)
+	})
+	// a failing instance Close whose error wraps ErrScopeDisposed / ErrProviderDisposed is a failure like any other: the
+	// Close of the parent scope / of the provider reports it
+	for _, via := range []string{"own", "parent", "provider"} {
+		for wi, w := range []error{godi.ErrScopeDisposed, godi.ErrProviderDisposed} {
+			via, w := via, w
+			abuseCall(fmt.Sprintf("close_error_wrapping_sentinel_%s_%d", via, wi), func() error {
+				flushWrap.Store(w)
+				c := godi.NewCollection()
+				if err := c.AddScoped(newFlushSvc); err != nil {
+					return err
+				}
+				p, err := c.Build()
+				if err != nil {
+					return err
+				}
+				parent, err := p.CreateScope(nil)
+				if err != nil {
+					return err
+				}
+				child, err := parent.CreateScope(nil)
+				if err != nil {
+					return err
+				}
+				if _, err := child.Get(typeOf[*flushSvc]()); err != nil {
+					return err
+				}
+				var cerr error
+				switch via {
+				case "own":
+					cerr = child.Close()
+				case "parent":
+					cerr = parent.Close()
+				default:
+					cerr = p.Close()
+				}
+				p.Close()
+				if cerr == nil {
+					return fmt.Errorf("the failing Close of an instance in the subtree was not reported")
+				}
+				var de *godi.DisposalError
+				if !errors.As(cerr, &de) {
+					return fmt.Errorf("not a disposal error: %v", cerr)
+				}
+				return nil
+			})
+		}
 	}
 }
